@@ -565,6 +565,20 @@ pub fn check_partial(ctx: &DefCtx, s: &[u8], k: usize, full: &RunOut, full_ref: 
     if n_p < full.items.len() || ps < k {
         stats.stopped_mid_stream += 1;
     }
+    // (2b) callbacks: the invocations seen by the partial lexer are a leading run of the one-shot lexer's invocations
+    // (same leaf, span, slice, decision; each once) - in particular no callback runs for a match that is still pending
+    // when the buffer ends. Only judged when no callback of the definition bumps (a bump is a function of the remainder,
+    // which legitimately differs between the prefix and the whole input).
+    if ctx.def.has_callbacks() && !ctx.def.pats.iter().any(|p| p.cb.as_ref().map(|c| c.bump).unwrap_or(false)) {
+        let n = part.cb_log.len();
+        if n > full.cb_log.len() || part.cb_log[..] != full.cb_log[..n] {
+            let j = (0..n.min(full.cb_log.len())).find(|&j| part.cb_log[j] != full.cb_log[j]).unwrap_or(n.min(full.cb_log.len()));
+            vs.push(v("C07", "partial-callback-log-not-a-prefix", format!("split {k}: invocation #{j} of the partial lexer is {:?}, the one-shot lexer's is {:?} (partial {} invocations, one-shot {})", part.cb_log.get(j), full.cb_log.get(j), n, full.cb_log.len())));
+            vs.push(v("C13", "partial-callback-log-not-a-prefix", format!("split {k}: a callback ran for a match the partial lexer did not commit, or ran twice: invocation #{j}: {:?} vs {:?}", part.cb_log.get(j), full.cb_log.get(j))));
+        } else {
+            stats.callback_prefix_checks += 1;
+        }
+    }
     // (3) eagerness / no over-commitment, closed over all continuations by the reference
     if ctx.def.has_callbacks() {
         return;
@@ -601,6 +615,7 @@ pub fn check_partial(ctx: &DefCtx, s: &[u8], k: usize, full: &RunOut, full_ref: 
 
 #[derive(Debug, Clone, Default)]
 pub struct PartialStats {
+    pub callback_prefix_checks: usize,
     pub splits: usize,
     pub stopped_mid_stream: usize,
     pub inconclusive: usize,
